@@ -10,7 +10,9 @@
     appcfg.eventfile_unique_name / app_name (new cache file id => new container name,
     [app_name (i, f) = i]).  Cleanup links are named either after the instance ([LInst],
     used by _synchronize and the monitor) or after the container ([LCont], used by
-    _terminate): the model follows the code as it is.
+    _terminate): the model follows the code as it is (after the repairs of _synchronize,
+    _on_deleted and _on_created: container-wise resynchronisation, stale deleted events,
+    finished containers).
 
     inotify is a FIFO queue of events, one per change of the cache directory, delivered by
     the [Deliver] op; everything else (eventmgr writing/removing cache files, readiness
@@ -36,8 +38,8 @@ Section Map.
     end.
 End Map.
 
-Definition inst := Z.
-Definition cont := (Z * Z)%type.                 (* (instance, cache file id) *)
+Notation inst := Z (only parsing).
+Notation cont := (Z * Z)%type (only parsing).     (* (instance, cache file id) *)
 Definition app_name (c : cont) : inst := fst c.  (* appcfg.app_name *)
 
 Inductive lname := LInst (i : inst) | LCont (c : cont).
@@ -103,10 +105,6 @@ Definition with_finished s v := {| cache := cache s; apps := apps s; running := 
                                    active := active s; queue := queue s; finished := v |}.
 Definition enqueue s e := with_queue s (queue s ++ [e]).
 
-(** os.path.exists(link): the link exists and the directory it points to exists *)
-Definition target_exists (s : st) (o : option cont) : bool :=
-  match o with Some c => match aget (apps s) c with Some _ => true | None => false end | None => false end.
-
 (** AppCfgMgr._configure(instance): the stubbed app_cfg.configure creates apps/<unique name>
     (idempotent) or fails; on failure the event file is removed (-> a deleted event) *)
 Definition configure (s : st) (i : inst) : st * bool :=
@@ -126,21 +124,42 @@ Definition terminate (s : st) (i : inst) : st :=
   | Some c => with_cleanup (with_running s (mdel Z.eqb (running s) i)) (mset lname_eqb (cleanup s) (LCont c) c)
   end.
 
+(** AppCfgMgr._linked_container(link): the container a link points to, if the link exists and the
+    directory it points to exists *)
+Definition linked (s : st) (o : option cont) : option cont :=
+  match o with
+  | Some c => match aget (apps s) c with Some _ => Some c | None => None end
+  | None => None
+  end.
+Definition opt_is (c : cont) (o : option cont) : bool :=
+  match o with Some c' => cont_eqb c' c | None => false end.
+
+(** AppCfgMgr._has_cleanup_file(container) *)
+Definition has_cleanup_file (s : st) (c : cont) : bool :=
+  match aget (apps s) c with Some f => flagged f | None => false end.
+
+(** fs.symlink_safe(cleanup/<instance>, apps/<container>) unless another generation holds that name *)
+Definition add_cleanup_link (s : st) (in_cleanup : option cont) (c : cont) : st :=
+  match in_cleanup with
+  | None => with_cleanup s (mset lname_eqb (cleanup s) (LInst (app_name c)) c)
+  | Some _ => s                                          (* deferred to a later synchronisation *)
+  end.
+
 (** one iteration of the first loop of _synchronize; [cached] is the local dict *)
 Definition sync_container (sc : st * list (inst * cont)) (c : cont) : st * list (inst * cont) :=
   let '(s, cached) := sc in
   let i := app_name c in
-  let is_cur := match mget Z.eqb cached i with Some c' => cont_eqb c' c | None => false end in
-  if target_exists s (rget (running s) i) then
-    ((if is_cur then s else terminate s i), mdel Z.eqb cached i)
-  else if target_exists s (lget (cleanup s) (LInst i)) then
-    (s, mdel Z.eqb cached i)
+  let is_cur := opt_is c (mget Z.eqb cached i) in
+  let in_cleanup := linked s (lget (cleanup s) (LInst i)) in
+  if opt_is c (linked s (rget (running s) i)) then
+    if is_cur then (s, mdel Z.eqb cached i) else (terminate s i, cached)
+  else if opt_is c in_cleanup then
+    (s, if is_cur then mdel Z.eqb cached i else cached)
   else if is_cur then
-    let fl := match aget (apps s) c with Some f => flagged f | None => false end in
-    let '(s1, ok) := if fl then (s, false) else configure s i in
-    ((if ok then s1 else with_cleanup s1 (mset lname_eqb (cleanup s1) (LInst i) c)), mdel Z.eqb cached i)
+    let '(s1, ok) := if has_cleanup_file s c then (s, false) else configure s i in
+    ((if ok then s1 else add_cleanup_link s1 in_cleanup c), mdel Z.eqb cached i)
   else
-    (with_cleanup s (mset lname_eqb (cleanup s) (LInst i) c), cached).
+    (add_cleanup_link s in_cleanup c, cached).
 
 Fixpoint memb {A} (eqb : A -> A -> bool) (x : A) (l : list A) : bool :=
   match l with [] => false | y :: r => eqb y x || memb eqb x r end.
@@ -154,10 +173,25 @@ Definition arrangeb {A} (eqb : A -> A -> bool) (ord l : list A) : list A :=
 (** AppCfgMgr._synchronize; [oc]/[oi] = iteration order of the set of containers / of the cached dict *)
 Definition synchronize (s : st) (oc : list cont) (oi : list inst) : st :=
   let configured := arrangeb cont_eqb oc (map fst (apps s)) in
-  let cached0 := map (fun kv => (fst kv, (fst kv, fst (snd kv)))) (cache s) in
+  let cached0 : list (inst * cont) := map (fun kv => (fst kv, (fst kv, fst (snd kv)))) (cache s) in
   let '(s1, cached1) := fold_left sync_container configured (s, cached0) in
   let rest := arrangeb Z.eqb oi (map fst cached1) in
   fold_left (fun s i => fst (configure s i)) rest s1.
+
+(** container of the event file as it exists now (appcfg.eventfile_unique_name; None = file gone) *)
+Definition current_cont (s : st) (i : inst) : option cont :=
+  match cget (cache s) i with Some (f, _) => Some (i, f) | None => None end.
+
+(** AppCfgMgr._runs_manifest: running/<instance> points at the container of the current event file *)
+Definition runs_manifest (s : st) (i : inst) : bool :=
+  match current_cont s i with
+  | Some c => opt_is c (linked s (rget (running s) i))
+  | None => false
+  end.
+
+(** AppCfgMgr._is_finished: the container of the current event file has a cleanup file *)
+Definition is_finished (s : st) (i : inst) : bool :=
+  match current_cont s i with Some c => has_cleanup_file s c | None => false end.
 
 (** the handlers *)
 Definition handle (s : st) (e : event) (oc : list cont) (oi : list inst) : st :=
@@ -169,9 +203,12 @@ Definition handle (s : st) (e : event) (oc : list cont) (oi : list inst) : st :=
       if negb (active s) then s
       else match rget (running s) i with
            | Some _ => s                                   (* os.path.islink(running/<instance>) *)
-           | None => fst (configure s i)
+           | None => if is_finished s i then s else fst (configure s i)
            end
-  | EvDeleted i => if negb (active s) then s else terminate s i
+  | EvDeleted i =>
+      if negb (active s) then s
+      else if runs_manifest s i then s                     (* stale event: placed again meanwhile *)
+      else terminate s i
   end.
 
 Inductive op :=
